@@ -155,8 +155,19 @@ func lockCall(s ast.Stmt) (recv ast.Expr, try string, ok bool) {
 
 func (r *rewriter) list(in []ast.Stmt) []ast.Stmt {
 	out := make([]ast.Stmt, 0, 2*len(in)+1)
+	afterLock := false
 	for _, s := range in {
+		// no preemption point between `X.Lock()` and the `defer X.Unlock()`
+		// that follows it: a task unwound there (step cap) would leave the
+		// lock held for ever
+		if _, isDefer := s.(*ast.DeferStmt); isDefer && afterLock {
+			out = append(out, s)
+			afterLock = false
+			continue
+		}
+		afterLock = false
 		if recv, try, ok := lockCall(s); ok {
+			afterLock = true
 			id := r.newSite(s.Pos(), "lock")
 			out = append(out, &ast.ExprStmt{X: &ast.CallExpr{
 				Fun: &ast.SelectorExpr{X: ast.NewIdent("simrt"), Sel: ast.NewIdent("Acquire")},
